@@ -38,22 +38,41 @@ def case_strategy(draw, tier):
             t["parents"] = par
     else:
         t = draw(gen_tree.tree_case(min_n=2, max_n=max_n, regimes=["lattice", "coincident", "float"]))
-    return {"tree": t}
+    return {"tree": t, "then": draw(st.sampled_from(["nothing", "nothing", "sort", "redirect"])), "sel": draw(st.integers(0, 10 ** 6))}
 
 
 def run_case(case, ctx):
-    from swcgeom.core import BranchTree
-    from swcgeom.transforms import ToBranchTree, ToLongestPath
+    from swcgeom.core import redirect_tree, sort_tree
 
     t = case["tree"]
-    parents = t["parents"]
-    n = len(parents)
-    ch = models.children(parents)
     tree = gen_tree.build_tree(t)
     classes = gen_tree.shape_classes(t)
     ctx.cls(*classes)
+    n = len(t["parents"])
+    ch = models.children(t["parents"])
     nfurc = sum(1 for c in ch if len(c) >= 2)
     ctx.nontrivial((n >= 6 and nfurc >= 2) or n == 1 or "unbranched-chain" in classes or "rootdeg:1" in classes)
+    _decompose(t, tree, ctx)
+    # a tree derived from the one that has just been inspected is decomposed on its own terms
+    how = case.get("then", "nothing")
+    if how != "nothing" and n >= 2:
+        derived = sort_tree(tree) if how == "sort" else redirect_tree(tree, case["sel"] % n)
+        t2 = dict(t, parents=[int(v) for v in derived.pid()])
+        for col in ("x", "y", "z", "r", "w"):
+            t2[col] = [float(v) for v in derived.get_ndata(col)]
+        t2["type"] = [int(v) for v in derived.type()]
+        t2["tag"] = [int(v) for v in derived.get_ndata("tag")]
+        ctx.cls("derived-tree-decomposed-after-its-source:" + how)
+        _decompose(t2, derived, ctx)
+
+
+def _decompose(t, tree, ctx):
+    from swcgeom.core import BranchTree
+    from swcgeom.transforms import ToBranchTree, ToLongestPath
+
+    parents = t["parents"]
+    n = len(parents)
+    ch = models.children(parents)
 
     want_tips = sorted(models.tips(parents))
     want_furc = sorted(models.furcations(parents))
@@ -140,5 +159,6 @@ def run_case(case, ctx):
 SUBCHECKS = [
     Sub("decompose", case_strategy, run_case, quick=1500, thorough=20000, shards_quick=4,
         required={"single-node": 20, "unbranched-chain": 20, "rootdeg:1": 20, "rootdeg:2": 20,
-                  "rootdeg:3+": 20, "furcations>=2": 200, "permuted": 200}),
+                  "rootdeg:3+": 20, "furcations>=2": 200, "permuted": 200,
+                  "derived-tree-decomposed-after-its-source:sort": 100, "derived-tree-decomposed-after-its-source:redirect": 100}),
 ]
